@@ -243,7 +243,7 @@ def case_dir(ctx, idx, case):
             rc, se, sn, w = fresh_run(fname, dir_module(n))
             shutil.rmtree(w, ignore_errors=True)
             return len(sn[tf][1]) if rc == 0 and tf in sn else None
-        lo, hi, best = 1, 96, None
+        lo, hi, best = 1, 256, None
         s1 = size_of(1)
         if s1 is not None and s1 <= want:
             best = (1, want - s1)
@@ -584,7 +584,7 @@ def directed_cases(seed, quick=True):
                 c["target"] = ("T.c", sz)
             cases.append(c)
     # the header at the block size; skeleton copies and in-place files; the other option sets
-    for lab, sz in [("eq1", BLOCK)] + ([] if quick else [("eq1+1", BLOCK + 1), ("eq2", 2 * BLOCK)]):
+    for lab, sz in [("eq1", BLOCK)] + ([] if quick else [("eq1+1", BLOCK + 1), ("eq1-1", BLOCK - 1)]):
         cases.append({"name": "DirH-" + lab, "mode": "restricted", "target": ("T.h", sz), "focus": ["T.h"], "variants": False, "seed": seed * 1000 + 20})
     skel_focus = ["INTEGER.c", "BOOLEAN.h", "Makefile.am.libasncodec", "pdu_collection.c"]
     if not quick:
